@@ -253,8 +253,12 @@ class ReactionQueryReader(object):
         return radical, charge, valence
 
     def ReadAtomType(self, tree):
-        assert tree[0][0] == 'Symbols'
-        symbol = tree[0][1][0]
+        i = 0
+        if tree[i][0] == 'AtomPrefix':
+            raise NotImplementedError("AtomType: atom prefix '" + tree[i][1]
+                                      + "' not supported in atomtype modify")
+        assert tree[i][0] == 'Symbols'
+        symbol = tree[i][1][0]
         radical, charge, valence = 0, 0, 0
 
         if len(tree) > 1:
